@@ -17,7 +17,9 @@ RULE = ("seeded random variables (domains of 1-3 distinct integer values; plain,
         "2^40-scale and +/-inf tables, min and max; calls of find_arg_optimal, find_optimal, "
         "optimal_cost_value, assignment_cost, projection, and one evaluation step of the real "
         "DsaComputation (variants A/B/C), ADsaComputation.tick and DsaTutoComputation.on_new_cycle "
-        "with the random draws supplied by the case; malformed stream: relation on the wrong "
+        "with the random draws supplied by the case; a multi-cycle stream (one real DSA / A-DSA / "
+        "dsatuto object with 2-3 neighbours fed 2-5 successive cycles of neighbour values in varying "
+        "arrival orders, values often permuted between cycles); malformed stream: relation on the wrong "
         "scope, missing neighbour values. non-trivial = at least two domain values and a "
         "non-constant cost; distinct = distinct case JSON")
 MODELLED = ("theorems (all domains, all extended costs without nan, both modes): find_arg_optimal / "
@@ -43,10 +45,60 @@ META = dict(
 
 
 # ------------------------------------------------------------------ generator
+def _gen_multi(rng, c):
+    """several successive cycles of one real computation: variable 0 with 2-3 neighbours; per
+    cycle one value per neighbour, delivered in a per-cycle arrival order"""
+    nn = rng.choice([2, 2, 3])
+    x = R.gen_var(rng, 0, with_cost=0.4)
+    nbs = [R.gen_var(rng, j, with_cost=0.3) for j in range(1, nn + 1)]
+    if rng.random() < 0.7:      # same domain for all neighbours: value tuples can be permuted
+        for v in nbs[1:]:
+            v["dom"] = list(nbs[0]["dom"])
+            v["costs"] = [[d, t] for d, t in v["costs"] if d in v["dom"]]
+            if v["kind"] == "func":
+                v["kind"], v["costs"] = "plain", []
+    c["vars"] = [x] + nbs
+    c["algo"] = rng.choice(["dsa", "dsa", "dsa", "adsa", "dsatuto"])
+    c["bad"] = False
+    cs = []
+    for nb in nbs:      # one binary constraint per neighbour, sometimes a ternary one
+        dims = [x, nb] if rng.random() < 0.5 else [nb, x]
+        r = R.gen_rel(rng, dims, arity=2, allow_inf=rng.random() < 0.2)
+        r["dims"] = [v["id"] for v in dims]
+        cs.append(r)
+    if rng.random() < 0.25:
+        dims = [x] + rng.sample(nbs, 2)
+        r = R.gen_rel(rng, dims, arity=3, allow_inf=False)
+        r["dims"] = [v["id"] for v in dims]
+        cs.append(r)
+    c["cs"] = cs
+    c["variant"] = rng.choice(["A", "B", "C"])
+    c["prob"] = rng.choice([0.7, 1.0, 1.0])
+    c["cur"] = rng.choice(x["dom"])
+    cycles = []
+    prev = None
+    for _ in range(rng.randint(2, 5)):
+        order = [v["id"] for v in nbs]
+        rng.shuffle(order)
+        if prev is not None and rng.random() < 0.5:
+            vals = [b for _, b in prev]
+            rng.shuffle(vals)       # the previous cycle's values handed to other neighbours
+            byid = {v["id"]: v for v in nbs}
+            arrivals = [[i, val if val in byid[i]["dom"] else rng.choice(byid[i]["dom"])]
+                        for i, val in zip(order, vals)]
+        else:
+            byid = {v["id"]: v for v in nbs}
+            arrivals = [[i, rng.choice(byid[i]["dom"])] for i in order]
+        prev = arrivals
+        cycles.append(dict(arrivals=arrivals, draw=rng.choice([0.0, 0.1, 0.4, 0.6, 0.9]),
+                           pick=rng.randint(0, 5)))
+    c["cycles"] = cycles
+
+
 def gen(rng, n, tier):
     cases = []
     kinds = ["argopt", "argopt", "findopt", "findopt", "findopt", "optcost", "asgcost", "proj",
-             "dsa", "dsa", "adsa", "dsatuto", "isolated"]
+             "dsa", "dsa", "adsa", "dsatuto", "isolated", "multi", "multi"]
     for i in range(n):
         kind = rng.choice(kinds)
         nv = rng.randint(1, 4)
@@ -68,6 +120,8 @@ def gen(rng, n, tier):
             pass
         elif kind == "isolated":
             c["algo"] = rng.choice(["dsa", "adsa"])
+        elif kind == "multi":
+            _gen_multi(rng, c)
         else:
             ncs = rng.randint(0 if kind in ("findopt", "asgcost") else 1, 3)
             cs = []
@@ -152,6 +206,61 @@ def _build_comp(c, objs, cs):
     return mod, comp
 
 
+def _run_multi(c, objs):
+    """feed successive cycles of neighbour values to ONE real computation object"""
+    cs = [R.build_rel(c, r, objs, "c%d" % i) for i, r in enumerate(c["cs"])]
+    c2 = dict(c, kind=c["algo"])
+    mod, comp = _build_comp(c2, objs, cs)
+    comp._running = True
+    comp.value_selection(c["cur"], None)
+    orig_sel = comp.value_selection
+    cur_sel, cur_viol = [], []
+
+    def rec(val, cost=None):
+        cur_sel.append([val, R.tok(cost)])
+        return orig_sel(val, cost)
+    comp.value_selection = rec
+    if hasattr(comp, "exists_violated_constraint"):
+        orig_v = comp.exists_violated_constraint
+
+        def wrapped():
+            r = orig_v()
+            cur_viol.append(bool(r))
+            return r
+        comp.exists_violated_constraint = wrapped
+    saved = mod.random
+    out = []
+    try:
+        for cy in c["cycles"]:
+            fake = FakeRandom(cy["draw"], cy["pick"])
+            mod.random = fake
+            del cur_sel[:], cur_viol[:]
+            before = comp.current_value
+            n0 = comp.cycle_count
+            try:
+                if c["algo"] == "dsa":
+                    for i, v in cy["arrivals"]:
+                        comp._on_value_msg(R.vname(i), mod.DsaMessage(v), 0)
+                elif c["algo"] == "adsa":
+                    import io
+                    import contextlib
+                    for i, v in cy["arrivals"]:
+                        comp._on_value_msg(R.vname(i), mod.ADsaMessage(v), 0)
+                    with contextlib.redirect_stdout(io.StringIO()):
+                        comp.tick()
+                else:
+                    comp.on_new_cycle({R.vname(i): (mod.DsaMessage(v), 0) for i, v in cy["arrivals"]}, 0)
+            except Exception as e:
+                out.append(dict(R.err_obs(e), before=before, violated=cur_viol[0] if cur_viol else False))
+                break
+            out.append(dict(before=before, selected=list(cur_sel), after=comp.current_value,
+                            violated=cur_viol[0] if cur_viol else False, choice_idx=fake.choice_idx,
+                            evaluated=(comp.cycle_count - n0) if c["algo"] == "dsa" else 1))
+    finally:
+        mod.random = saved
+    return dict(cycles=out)
+
+
 def _run_isolated(c, objs):
     """start of a DSA / A-DSA computation whose variable has no neighbour"""
     c2 = dict(c, kind=c["algo"], variant="B", prob=0.7)
@@ -196,6 +305,8 @@ def run_impl(c):
             return dict(value=v, cost=R.tok(cost))
         if k == "isolated":
             return _run_isolated(c, objs)
+        if k == "multi":
+            return _run_multi(c, objs)
         cs = [R.build_rel(c, r, objs, "c%d" % i) for i, r in enumerate(c["cs"])]
         if k == "findopt":
             asg = R.asg_dict(c["asg"])
@@ -276,6 +387,42 @@ def covered(c, asg, need_x):
     return True
 
 
+def _oracle_multi(c, o):
+    """every value_selection of every cycle goes to a member of the brute-force best-response set
+    for the neighbour values of THAT cycle (constraints + own cost) and announces that cost"""
+    if "error" in o:
+        return "multi-cycle %s run raised %s" % (c["algo"], o["error"])
+    x = c["vars"][0]
+    opt = min if c["mode"] == "min" else max
+    cur = c["cur"]
+    for n, (cy, oc) in enumerate(zip(c["cycles"], o["cycles"])):
+        costs = local_costs(c, dict((a, b) for a, b in cy["arrivals"]))
+        if has_nan(costs):
+            return None         # undefined optimum: out of scope from here on
+        if "error" in oc:
+            return "%s cycle %d raised %s" % (c["algo"], n, oc["error"])
+        if oc["before"] != cur:
+            return "%s cycle %d starts from value %r, last selected value is %r" % (c["algo"], n, oc["before"], cur)
+        if oc.get("evaluated") != 1:
+            return "%s cycle %d: %r evaluations for one full set of neighbour values" % (c["algo"], n, oc.get("evaluated"))
+        best = opt(costs)
+        exp = [d for d, cst in zip(x["dom"], costs) if cst == best]
+        if len(oc["selected"]) > 1:
+            return "%s cycle %d selected a value twice" % (c["algo"], n)
+        for v, cst in oc["selected"]:
+            if v not in exp:
+                return "%s cycle %d (arrivals %r): selected %r, best responses are %r (local costs %r, mode %s)" % (
+                    c["algo"], n, cy["arrivals"], v, exp, costs, c["mode"])
+            if cst != {"none": 1} and not R.same_num(R.tok_num(cst), best):
+                return "%s cycle %d: selected %r announcing cost %r, optimal local cost is %r" % (c["algo"], n, v, cst, best)
+            cur = v
+        if oc["after"] != cur:
+            return "%s cycle %d ends with value %r, expected %r" % (c["algo"], n, oc["after"], cur)
+    if len(o["cycles"]) != len(c["cycles"]):
+        return "%s run stopped after %d of %d cycles" % (c["algo"], len(o["cycles"]), len(c["cycles"]))
+    return None
+
+
 def oracle(c, o):
     k = c["kind"]
     x = c["vars"][0]
@@ -298,6 +445,8 @@ def oracle(c, o):
     if k == "proj":
         c2 = dict(c, kind="proj")
         return R.oracle(c2, dict(o, orig_same=True))
+    if k == "multi":
+        return _oracle_multi(c, o)
     if k == "isolated":
         if "error" in o:
             return "start of an isolated %s variable raised %s" % (c["algo"], o["error"])
@@ -389,6 +538,28 @@ def coq_case(c, o):
         return "CArgOpt %s %s %s %s" % (x, R.g_rel(c, c["rel"]), m, g_opt("values"))
     if k == "proj":
         return "CProj %s %s %s %s" % (R.g_rel(c, c["rel"]), R.g_var(byid[c["x"]]), m, R.g_res(o, "rel", R.g_obsrel))
+    if k == "multi":
+        if "error" in o:
+            return None
+        cs = q.lst([R.g_rel(c, r) for r in c["cs"]])
+        steps = []
+        for cy, oc in zip(c["cycles"], o["cycles"]):
+            if "error" in oc:
+                sel = R.g_res(oc, "selected", None)
+                pick = 0
+            else:
+                if len(oc["selected"]) > 1:
+                    raise ValueError("two selections in one cycle")
+                sel = "(Ok %s)" % q.opt(oc["selected"][0][0] if oc["selected"] else None, q.z)
+                pick = oc["choice_idx"] if oc["choice_idx"] is not None else 0
+            if c["algo"] == "dsatuto":
+                steps.append("CDsaTuto %s %s %s %s %s %s %s" % (
+                    x, m, R.g_asg(cy["arrivals"]), cs, q.z(oc["before"]), q.b(0.5 > cy["draw"]), sel))
+            else:
+                steps.append("CDsa %s %s %s %s %s %s %s %s %s %s" % (
+                    x, "V" + c["variant"], m, R.g_asg(cy["arrivals"]), cs, q.z(oc["before"]),
+                    q.b(oc["violated"]), q.b(c["prob"] > cy["draw"]), q.nat(pick), sel))
+        return "CMulti %s" % q.lst(steps)
     if k == "isolated":
         if "error" in o or len(o["selected"]) != 1 or not isinstance(o["selected"][0][0], int):
             return None
@@ -422,6 +593,8 @@ def nontrivial(c, o):
     x = c["vars"][0]
     if len(x["dom"]) < 2:
         return False
+    if c["kind"] == "multi":
+        return True
     if c["kind"] in ("argopt", "proj"):
         return len(set(map(str, c["rel"]["table"]))) > 1
     if c["kind"] in ("optcost", "isolated"):
@@ -432,10 +605,13 @@ def nontrivial(c, o):
 def histogram(cases, obs):
     h = {}
     for c, o in zip(cases, obs):
-        k = c["kind"] + "/" + c["mode"] + ("/bad" if c.get("bad") else "")
+        k = c["kind"] + ("-" + c["algo"] if c["kind"] == "multi" else "") + "/" + c["mode"] + ("/bad" if c.get("bad") else "")
         h[k] = h.get(k, 0) + 1
         if isinstance(o, dict) and "error" in o:
             h["raised " + o["error"]] = h.get("raised " + o["error"], 0) + 1
+        if isinstance(o, dict) and c["kind"] == "multi" and "cycles" in o:
+            h["multi cycles"] = h.get("multi cycles", 0) + len(o["cycles"])
+            h["multi moves"] = h.get("multi moves", 0) + sum(1 for oc in o["cycles"] if oc.get("selected"))
         if isinstance(o, dict) and o.get("selected"):
             h[c["kind"] + " moved"] = h.get(c["kind"] + " moved", 0) + 1
     return h
